@@ -84,6 +84,8 @@ STATEMENT_STATUS: Dict[str, str] = {
     "C02_written_newest_wins": "proved (round 6): newest definition wins end to end on the writer's output",
     "C02_table_entry_layout": "proved (round 6) about REGENERATED entry-line handling of PDFXRef.load (tuple unpacking order, stored tuple, "
                               "range(start, start + nobjs))",
+    "C02_end_to_end": "proved (round 6): open (find_xref with any buffer size + whole trailer chain) + getobj on a file laid out by the Lean "
+                      "writers = newest revision's value, for every object number",
     "C02_table_fuel / C02_fallback_fuel": "proved (round 2): loops terminate within one iteration per byte",
     "C02_fallback": "proved (round 2): body scan offsets = true offsets; hypothesis ItemsOK checked per damaged file by itemsOKb",
     "C02_cue_header": "proved (round 2): PDFOBJ_CUE matcher accepts every rendered `n g obj` header",
